@@ -368,6 +368,9 @@ pub fn cancel(rng: &mut Rng) -> Case {
         g.action();
     }
     g.drain();
+    if g.rng.chance(1, 4) && g.id_comes_round() {
+        g.drain();
+    }
     if let Some(r) = r {
         g.quota_probe(r as usize);
     }
@@ -1259,8 +1262,14 @@ pub fn resume(rng: &mut Rng) -> Case {
             g.rollback_stage(op, kind);
         }
     }
-    let cut = g.rng.below(10);
-    if cut < 8 {
+    let cut = g.rng.below(12);
+    if cut >= 10 {
+        // the connection is ended by the user's own disconnect() (no Session Expiry override):
+        // the session outlives it like any other end of the connection
+        let id = g.next_op_id();
+        let handle = g.rng.usize_below(g.cfg.handles.max(1));
+        g.push(Step::Op { id, handle, spec: OpSpec::Disconnect(DisconnectSpec::default()) });
+    } else if cut < 8 {
         let k = if g.rng.coin() { FaultKind::ReadEof } else { FaultKind::ReadErr };
         g.push(Step::Fault(k));
     } else {
